@@ -28,7 +28,7 @@ def pre_gen(n0, n1, n2, p0, p1, p2, x, y, z):
         if name == "islice":
             ok = ok and 0 <= p0 <= R and 0 <= p1 <= R and 1 <= p2 <= 3
         elif name in ("batched", "batched_real"):
-            ok = ok and (1 if name == "batched_real" else 0) <= p0 <= N + 1
+            ok = ok and (1 if (name == "batched_real" or P("valid_only", False)) else 0) <= p0 <= N + 1
         elif name in ("nlargest", "nsmallest"):
             ok = ok and -1 <= p0 <= N + 1
         elif name == "enumerate":
